@@ -10,17 +10,20 @@ One event = one atomic action of the real code:
 * per started goroutine `execute` (an *instance*): `proceed` / `bail` (the first select with the
   `<-waitCh` of its `ctx.Done()` branch, resp. the `ctx.Err()` test, routine.go:106-116; which branch
   the select commits to is not observable before the predecessor's channel is closed, so "took
-  `ctx.Done()`", "`<-waitCh` returned" and the following `cancel(); close(exitedCh)` are one event), `cbin run` / `cbout` (the routine function, harness-controlled),
-  `closeExit` (`cancel(); close(exitedCh)`), `record` (the final critical section, 125-157);
+  `ctx.Done()`", "`<-waitCh` returned" and the following `cancel(); close(exitedCh)` are one event),
+  `cbin run` / `cbout` (the routine function, harness-controlled), `closeExit` (`cancel();
+  close(exitedCh)`), `record` (the final critical section, 125-157; only for the instance that is
+  still current for the record in the map — for any other it does nothing and is not an event);
 * `timerRemove k` / `timerRetry k` (the `time.AfterFunc` callbacks), `advance` (new time epoch),
   `quiesce` (nothing left to do), `probe` (harness reads `ctx.Err()` inside a running instance).
 
-Representation. Keys are `Nat`s; the map `routines` is a
-list indexed by the key (`look`/`put`). Instances are grouped by
+Representation. Keys are `Nat`s; the map `routines` is a list indexed by the key (`look`/`put`).
+Instances are grouped by
 *generation* (`G`): a new generation starts when a record is created for a key that is not in the map
 (`SetKey`/`SyncKeys`/`AddKeyRef`); `ResetRoutine` creates a new record in the *same* generation (it
 carries `prevExitedCh` over). The field `r.exitedCh` of the code is `G.last` (the only record of a
-generation whose `exitedCh` is ever read again is the one in the map).
+generation whose `exitedCh` is ever read again is the one in the map; `resetTail` is where the code
+loses it: open finding D18-keyed).
 
 A constructor may return a nil `Routine` (`env nilnext k`: the harness' constructor will do so at
 its next call for `k`; `Rec.hasFn`).
